@@ -17,12 +17,14 @@ RULE = ("case = LASFile with 1..40 float curves (counts drawn as k*per_line + {-
         "positions; options = version {1.2,2} x wrap x fmt %[flags][width][.prec]{f,F,e,E,g,G} x column_fmt x "
         "len_numeric_field {None,-1,narrow,exact,wide} x spacer x lhs_spacer x data_width x mnemonics_header x "
         "data_section_header; curve names plain, numeric ('1','2',...) or those of the steering items (NULL, WRAP, DLM, "
-        "VERS); the object's DLM item SPACE (default) or COMMA/TAB as after reading such a file; re-read with engine "
+        "VERS); the object's DLM item SPACE (default) or COMMA/TAB as after reading such a file; the object is built from scratch or (one case in six) is what lasio read from a lossless first write with mnemonic_case lower/upper/preserve; re-read (one case in six with mnemonic_case='lower'/'preserve') with engine "
         "numpy and normal. Oracle: same curve count/order/mnemonics/rows; "
         "finite cell |x'-x| <= 1/2 unit of the last printed digit of (fmt % x) + 2 ulp (exact rational arithmetic); "
         "NaN off the index -> NaN; index never NaN. Non-trivial: wrapped with > 1 physical line per step, or NaN "
         "present, or a field narrower than its token, or per-column formats.")
 ASSUMPTIONS = [
+    "re-reading with mnemonic_case='lower'/'preserve' goes beyond the letter of the statement ('either data engine'); it is "
+    "judged only on outputs whose header mnemonics are upper-case, where the spelling option changes no steering item",
     "formats are rounding formats %[flags][width][.prec]{f,F,e,E,g,G}; spacer='' only with a len_numeric_field larger "
     "than every token (documented precondition); any data_width, also one narrower than a value (former precondition, lifted "
     "with the repair of D48: a value is never split)",
@@ -75,6 +77,20 @@ def oracle(case):
     if case.get("null"):
         desc["null"] = case["null"]  # any NULL marker must carry the NaNs through the file
     las = build.build_las(desc)
+    if case.get("via_read"):
+        # the object of a FILE: the same curves written once without loss (%.17g) and read with the given mnemonic_case;
+        # such an object has sections that compare mnemonics without regard to case and, with 'lower', lower-case items
+        t1 = attempt(build.write_text, las, fmt="%.17g")
+        las1 = None if is_raised(t1) else read_text(t1, engine="normal", mnemonic_case=case["via_read"])
+        same = las1 is not None and not is_raised(las1) and len(las1.curves) == c and all(
+            len(cv.data) == r and all((math.isnan(fdec(x)) and math.isnan(float(y))) or fdec(x) == float(y) for x, y in zip(col, cv.data))
+            for col, cv in zip(cols, las1.curves))
+        if not same:
+            out.rejected = True  # the lossless first generation is not this case's subject (it is a default-option case)
+            out.cls("via-read-first-generation-differs")
+            return out
+        las = las1
+        out.cls("object-from-read|mnemonic_case=" + case["via_read"])
     if case.get("wrap_item") is not None:
         # wrap= left to lasio (None): whatever the object's own WRAP item says and however it spells it, header and
         # data section of the output must agree about the layout
@@ -132,13 +148,21 @@ def oracle(case):
     elif opts.get("spacer", " ") != "":
         out.fail("written-token-count", "expected %d data tokens in the text, found %d\nopts=%r\n%s" % (c * r, len(toks), case["opts"], text[-800:]))
     for engine in case.get("engines", ["numpy", "normal"]):
-        back = read_text(text, engine=engine)
+        rkw = {}
+        if case.get("read_case"):
+            rkw["mnemonic_case"] = case["read_case"]  # how the reader spells mnemonics changes no sample
+            out.cls("reread-mnemonic_case-" + case["read_case"])
+        back = read_text(text, engine=engine, **rkw)
         tag = "%s|%s" % ("wrap" if wrap else "nowrap", engine)
         if is_raised(back):
             out.fail("reread-raises|%s|%s" % (back.bucket, tag), "%s\nopts=%r\n%s" % (back, case["opts"], text[-1500:]))
             continue
         keys = back.keys()
-        if keys != names or [cv.original_mnemonic for cv in back.curves] != keys:
+        if case.get("read_case") or case.get("via_read"):
+            if len(keys) != len(names):
+                out.fail("curves-differ|" + tag, "expected %d curves, got %r\nopts=%r\n%s" % (len(names), keys[:8], case["opts"], text[-1500:]))
+                continue
+        elif keys != names or [cv.original_mnemonic for cv in back.curves] != keys:
             out.fail("curves-differ|" + tag, "expected curves %r, got %r\nopts=%r\n%s" % (names[:8], keys[:8], case["opts"], text[-1500:]))
             continue
         if any(len(cv.data) != r for cv in back.curves):
@@ -328,6 +352,14 @@ def cases(draw, max_rows=6):
         case["opts"]["wrap"] = "np.True" if case["opts"]["wrap"] else "np.False"
     if nullspec is not None:
         case["null"] = nullspec
+    if draw(st.integers(0, 5)) == 0:
+        case["read_case"] = draw(st.sampled_from(["lower", "preserve"]))
+    if draw(st.integers(0, 5)) == 0:
+        case["via_read"] = draw(st.sampled_from(["lower", "lower", "upper", "preserve"]))
+        if case["via_read"] == "lower":
+            # lower-case header items in the output: finding `null` under mnemonic_case='preserve' is not something the
+            # statement promises; such outputs are re-read with the default options only
+            case.pop("read_case", None)
     if col_fmt and draw(st.booleans()):
         case["fmt_first"] = draw(st.sampled_from(["%.1f", "%.2f", "%.0f"]))
     return case
